@@ -15,7 +15,8 @@ MANIFEST = {
     "text": "Effect-trace contract on tar_syncer._pre_download / _post_download over a ghost directory (repository path, .name.update and "
             ".name.old staging directories, each empty, holding the complete old tree, the complete new tree or a partial unpack), for a "
             "repository that exists or not, every leftover state an interrupted earlier sync can leave, and every failure outcome "
-            "(staging directories cannot be created, tar fails after a partial unpack, either rename fails): after every effect the "
+            "(staging directories cannot be created, tar fails after a partial unpack, either rename fails, an interrupt from the keyboard arrives before either rename), "
+            "followed by the exit handlers the sync registered: after every effect the "
             "repository path holds the complete old tree or the complete new tree; data is only ever unpacked into the hidden staging "
             "directory; every failure raises SyncError with the previous tree back at the repository path; starting from every state a "
             "stop can leave, the next sync ends with the complete new tree.  The one state between the two renames (nothing at the "
@@ -36,6 +37,7 @@ class Dirs:
         self.d = dict(state)
         self.trace = []
         self.bad = []
+        self.at_exit = []
 
     def snap(self, what):
         self.trace.append((what, dict(self.d)))
@@ -48,6 +50,8 @@ def install_models(it, dirs, T, faults):
         a, b = N(a), N(b)
         if faults.get("rename") == a:
             raise PyRaise(OSError(18, "Invalid cross-device link"))
+        if faults.get("interrupt") == a:
+            raise PyRaise(KeyboardInterrupt())
         if a not in dirs.d:
             raise PyRaise(FileNotFoundError(2, a))
         if b in dirs.d and dirs.d[b] != "empty":
@@ -91,7 +95,7 @@ def install_models(it, dirs, T, faults):
         dirs.snap("tar")
         return types.SimpleNamespace(returncode=0)
     it.models[subprocess.run] = m_run
-    it.models[T.atexit.register] = lambda it_, *a, **k: None
+    it.models[T.atexit.register] = lambda it_, f, *a, **k: dirs.at_exit.append(f)
     it.models[T.tempfile.NamedTemporaryFile] = lambda it_, *a, **k: types.SimpleNamespace(name="/tmp/download.tar.gz", close=lambda: None)
     it.models[T.http_syncer._post_download] = lambda it_, self_, path: None
 
@@ -111,11 +115,13 @@ def t_sync(ex):
     import pkgcore.sync.tar as T
     from pkgcore.sync import base
     start = sorted(START_STATES)[ex.choose(len(START_STATES))]
-    fault = (None, "makedirs_update", "makedirs_old", "tar", "rename_aside", "rename_in")[ex.choose(6)]
+    fault = (None, "makedirs_update", "makedirs_old", "tar", "rename_aside", "rename_in", "interrupt_before_rename_aside", "interrupt_before_rename_in")[ex.choose(8)]
+    interrupted = fault is not None and fault.startswith("interrupt")
     P = f"C47.tar_syncer[{start}{', ' + fault + ' fails' if fault else ''}]"
     it = Interp(ex, label=P)
     dirs = Dirs(START_STATES[start])
-    faults = {"makedirs_update": {"makedirs": UPD}, "makedirs_old": {"makedirs": OLD}, "tar": {"tar": True}, "rename_aside": {"rename": BASE}, "rename_in": {"rename": UPD}}.get(fault, {})
+    faults = {"makedirs_update": {"makedirs": UPD}, "makedirs_old": {"makedirs": OLD}, "tar": {"tar": True}, "rename_aside": {"rename": BASE}, "rename_in": {"rename": UPD},
+              "interrupt_before_rename_aside": {"interrupt": BASE}, "interrupt_before_rename_in": {"interrupt": UPD}}.get(fault, {})
     install_models(it, dirs, T, faults)
     me = SObj(T.tar_syncer, {"basedir": BASE + "/", "uri": "https://example.org/repo.tar.gz"})
     prev = "new" if start == "stopped_after_the_renames" else ("old" if any(v == "old" for v in START_STATES[start].values()) else None)
@@ -131,6 +137,11 @@ def t_sync(ex):
         dirs.d[BASE] = "empty"
     mark = len(dirs.trace)
     out = call(it, it.target(TAR, "tar_syncer._post_download"), me, "/tmp/download.tar.gz")
+    # the process ends: the registered exit handlers run, last registered first (after an interrupt from the keyboard just as after a normal return)
+    import functools
+    for h in reversed(dirs.at_exit):
+        hr = call(it, h.func, *h.args, **h.keywords) if isinstance(h, functools.partial) else call(it, h)
+        ex.oblige(f"{P}.exit_handlers.raise.nothing", not hr.raised, kind="exceptional-postcondition")
     ex.oblige(f"{P}.invariant.nothing_is_unpacked_or_deleted_at_the_repository_path", not dirs.bad, kind="invariant", note="; ".join(dirs.bad))
     for what, state in dirs.trace[mark:]:
         at = state.get(BASE)
@@ -138,6 +149,11 @@ def t_sync(ex):
         between = at is None and prev is not None and state.get(OLD) == prev
         ex.oblige("C47.tar_syncer.invariant.the_repository_path_holds_a_complete_tree_after_every_effect", ok, kind="invariant", note=f"{P}: after '{what}': {state}",
                   known=[("KF-C47-1", between)])
+    if interrupted:
+        ex.oblige(f"{P}.raises.the_interrupt", out.raised_cls(KeyboardInterrupt), kind="exceptional-postcondition")
+        if prev is not None:
+            ex.oblige(f"{P}.ensures.an_interrupted_sync_leaves_the_previous_tree_at_the_repository_path_once_the_exit_handlers_ran", dirs.d.get(BASE) == prev, note=f"directories: {dirs.d}")
+        return
     if fault is not None:
         ex.oblige(f"{P}.raises.SyncError", out.raised_cls(base.SyncError), kind="exceptional-postcondition")
         if prev is not None:
@@ -194,7 +210,7 @@ def enum_syncs(seed):
                 out[os.path.relpath(q, p)] = open(q, "rb").read()
         return out
 
-    def one_sync(root, tarball, stop_at=None, etag="v1"):
+    def one_sync(root, tarball, stop_at=None, etag="v1", interrupt=False):
         """the real http_syncer._sync / tar_syncer hooks against a stub HTTP response; returns 'ok' | 'SyncError' | 'stopped' | 'unchanged'"""
         import io
         import pkgcore.sync.http as H
@@ -213,9 +229,12 @@ def enum_syncs(seed):
             def f(*a, **k):
                 if name == "makedirs" and k.get("exist_ok"):
                     return real[name](*a, **k)      # http_syncer creating the repository path: not part of the swap
+                if counter.get("dead"):
+                    raise _Stop()           # a killed process performs no further file operation, whatever handlers its code has
                 counter["n"] += 1
                 if stop_at is not None and counter["n"] == stop_at:
-                    raise _Stop()
+                    counter["dead"] = not interrupt
+                    raise (KeyboardInterrupt() if interrupt else _Stop())
                 return real[name](*a, **k)
             return f
         os.rename, os.makedirs, subprocess.run = wrap("rename"), wrap("makedirs"), wrap("run")
@@ -232,6 +251,8 @@ def enum_syncs(seed):
         except _Stop:
             res = "stopped"      # process death: no atexit handlers run
             regs = []
+        except KeyboardInterrupt:
+            res = "stopped"      # the user's interrupt: the stack unwinds and the interpreter exits, running the registered exit handlers
         except base.SyncError:
             res = "SyncError"
         finally:
@@ -269,34 +290,34 @@ def enum_syncs(seed):
             if (r2, tree_state(basedir(root))) != ("ok", "new"):
                 fails.append({"model": {"tarball": bad, "follow_up": True}, "detail": f"the sync after a failed one returned {r2}; the repository path holds {tree_state(basedir(root))}"})
         # every file operation as a stop point, then inspect, then sync again
-        for have_old in (True, False):
+        for have_old, interrupt in ((True, False), (False, False), (True, True), (False, True)):
             stop = 1
             while True:
-                root = os.path.join(scratch, f"s-{int(have_old)}-{stop}")
+                root = os.path.join(scratch, f"s-{int(have_old)}-{int(interrupt)}-{stop}")
                 os.makedirs(root)
                 if have_old:
                     assert one_sync(root, tars["old"], etag="v1") == "ok"
                 cases += 1
-                r = one_sync(root, tars["new"], stop_at=stop, etag="v2")
+                r = one_sync(root, tars["new"], stop_at=stop, etag="v2", interrupt=interrupt)
                 st = tree_state(basedir(root))
                 ok_now = st in ("old", "new") if have_old else st in (None, "new", "MISSING")
-                model = {"existing_repository": have_old, "stop_before_file_operation": stop, "repository_path": st, "leftovers": sorted(n for n in os.listdir(root) if n != "name")}
+                model = {"existing_repository": have_old, "interruption": "keyboard interrupt, exit handlers run" if interrupt else "process killed", "stop_before_file_operation": stop, "repository_path": st, "leftovers": sorted(n for n in os.listdir(root) if n != "name")}
                 if r == "stopped" and not ok_now:
                     between = have_old and st in (None, "MISSING") and tree_state(os.path.join(root, ".name.old")) == "old"
-                    fails.append({"model": dict(model, between_the_two_renames=between), "detail": f"sync stopped before file operation #{stop}: the repository path holds {st}, other entries {model['leftovers']}"})
+                    fails.append({"model": dict(model, between_the_two_renames=between), "detail": f"sync stopped ({model['interruption']}) before file operation #{stop}: the repository path holds {st}, other entries {model['leftovers']}"})
                 r2 = one_sync(root, tars["new"], etag="v2")
                 st2 = tree_state(basedir(root))
                 if (r2, st2) != ("ok", "new"):
-                    fails.append({"model": dict(model, follow_up=True), "detail": f"sync stopped before file operation #{stop}; the next sync returned {r2} and the repository path holds {st2}, other entries {sorted(n for n in os.listdir(root) if n != 'name')}"})
+                    fails.append({"model": dict(model, follow_up=True), "detail": f"sync stopped ({model['interruption']}) before file operation #{stop}; the next sync returned {r2} and the repository path holds {st2}, other entries {sorted(n for n in os.listdir(root) if n != 'name')}"})
                 left = sorted(n for n in os.listdir(root) if n != "name")
                 if r2 == "ok" and left:
                     fails.append({"model": dict(model, follow_up=True), "detail": f"after the follow-up sync staging directories are left behind: {left}"})
                 if r == "stopped" and have_old:
                     # the same interruption followed by a sync that fails (a corrupt archive): the old tree, put back by that sync, must survive it
-                    root3 = os.path.join(scratch, f"t-{stop}")
+                    root3 = os.path.join(scratch, f"t-{int(interrupt)}-{stop}")
                     os.makedirs(root3)
                     assert one_sync(root3, tars["old"], etag="v1") == "ok"
-                    one_sync(root3, tars["new"], stop_at=stop, etag="v2")
+                    one_sync(root3, tars["new"], stop_at=stop, etag="v2", interrupt=interrupt)
                     cases += 1
                     r3 = one_sync(root3, tars["bad2"], etag="v3")
                     st3 = tree_state(basedir(root3))
@@ -312,7 +333,7 @@ def enum_syncs(seed):
     finally:
         shutil.rmtree(scratch, ignore_errors=True)
     return {"name": "C47.syncs.bounded_enumeration", "bound": "real _pre_download / _post_download with real gzip tarballs in a scratch directory: good, truncated and corrupt archives over an existing repository, and a good archive with the sync "
-            "stopped before every rename / makedirs / tar invocation (with and without an existing repository), each followed by an inspection of the repository path and a second sync (a good one; and, over an existing repository, a failing one followed by a good one)", "cases": cases, "failures": sorted(fails, key=lambda f: bool(f["model"].get("between_the_two_renames")))[:8]}  # unlisted failures first: a listed one never crowds them out
+            "stopped before every rename / makedirs / tar invocation (with and without an existing repository; the process killed -- no exit handler runs -- or interrupted from the keyboard -- the stack unwinds and the registered exit handlers run), each followed by an inspection of the repository path and a second sync (a good one; and, over an existing repository, a failing one followed by a good one)", "cases": cases, "failures": sorted(fails, key=lambda f: bool(f["model"].get("between_the_two_renames")))[:8]}  # unlisted failures first: a listed one never crowds them out
 
 
 def tasks():
